@@ -23,7 +23,7 @@ use std::{
 pub static DEF: PropDef = PropDef {
     id: "C13",
     level: "exploration",
-    total: |t| t.pick(64, 1600),
+    total: |t| t.pick(128, 6400),
     run,
     rule: "0..12 machines mixing Pci/Ipv4/Udp/Tcp/Arp/SocketAPI with the built-in applications (SendMessage, Capture, Forward, PingPong, DhcpClient/DhcpServer, ArpRouter) and harness applications that initialise slowly (10..500 ms of simulated time before arriving at the barrier), request shutdown early/late/concurrently with distinct statuses, or never finish; timeouts 0 ms..5 s; paused current_thread runtime (exact times) and multi_thread runtime (order stamps only). A process-wide SeqCst counter stamps: each harness application's arrival at the barrier, every frame entering any network (H4), every delivery to a harness application, every shutdown request. Barrier oracle: no frame and no delivery may be stamped before the last harness arrival (the barrier cannot have released earlier). Status oracle: the returned status is that of a request no other request finished before; TimedOut iff no request was made before the timeout; simulated elapsed <= timeout + 1 s. Non-trivial = >=1 slow initialiser AND >=1 built-in sender in the same run; distinct by configuration hash.",
     assumptions: &[
